@@ -269,6 +269,131 @@ inline int replay(const std::string& path, const Options& o) {
     return 0;
 }
 
+// ---- copy / move differential (C15): two machine objects, operations addressed to either one -----------
+inline std::string inst_canon(zoo::RootT& r, int inst) {
+    Env& E = env();
+    std::string s = zoo::vf_snapshot(r) + "L:";
+    for (auto& kv : E.parity) if (kv.second != 0 && kv.first / 100000 == inst) s += std::to_string(kv.first % 100000) + "=" + std::to_string(kv.second) + ",";
+    return s;
+}
+inline void set_range(int i, zoo::RootT* p) {
+    Env& E = env();
+    E.inst_lo[i] = reinterpret_cast<const char*>(p); E.inst_hi[i] = p ? reinterpret_cast<const char*>(p) + sizeof(zoo::RootT) : nullptr;
+}
+inline std::string run_copy_history(const History& h, const Options& o) {
+    Env& E = env();
+    E.reset_all(); E.copy_mode = true; E.faults = false; E.n_menu = 0; E.observe_flags = false;
+    std::string reply;
+    {
+        std::unique_ptr<zoo::RootT> A(new zoo::RootT()), B;
+        set_range(0, A.get()); set_range(1, nullptr);
+        g_root = A.get();
+        zoo::vf_prepare(*A);
+        for (size_t i = 0; i < h.size(); ++i) {
+            const Step& st = h[i];
+            E.begin_op(st.tape); E.use_labels = true; E.labelmap = st.lm;
+            int ret = -1; bool esc = false; std::string what;
+            std::string op = st.op; bool onB = false;
+            if (op.size() > 1 && op.back() == 'B') { onB = true; op.pop_back(); }
+            try {
+                if (op == "cc") {
+                    B.reset(new zoo::RootT(static_cast<const zoo::RootT&>(*A))); set_range(1, B.get());
+                    std::map<int,int> add; for (auto& kv : E.parity) if (kv.first / 100000 == 0) add[kv.first + 100000] = kv.second;
+                    for (auto& kv : add) E.parity[kv.first] = kv.second;
+                } else if (op == "ca") {
+                    B.reset(new zoo::RootT()); set_range(1, B.get()); zoo::vf_prepare(*B);
+                    *B = static_cast<const zoo::RootT&>(*A);
+                    std::map<int,int> add; for (auto& kv : E.parity) if (kv.first / 100000 == 0) add[kv.first + 100000] = kv.second;
+                    for (auto& kv : add) E.parity[kv.first] = kv.second;
+#if VF_FAMILY == 3
+                } else if (op == "mvc") {
+                    B.reset(new zoo::RootT(std::move(*A))); set_range(1, B.get());
+                    std::map<int,int> add; for (auto& kv : E.parity) if (kv.first / 100000 == 0) add[kv.first + 100000] = kv.second;
+                    for (auto& kv : add) E.parity[kv.first] = kv.second;
+                } else if (op == "mva") {
+                    B.reset(new zoo::RootT()); set_range(1, B.get());
+                    *B = std::move(*A);
+                    std::map<int,int> add; for (auto& kv : E.parity) if (kv.first / 100000 == 0) add[kv.first + 100000] = kv.second;
+                    for (auto& kv : add) E.parity[kv.first] = kv.second;
+#endif
+#if defined(VF_SERIALIZE) && VF_FAMILY != 3
+                } else if (op == "svt" || op == "svb") {
+                    std::stringstream ss;
+                    const zoo::RootT& src = *A;
+                    if (op == "svt") { boost::archive::text_oarchive oa(ss); oa << src; }
+                    else { boost::archive::binary_oarchive oa(ss); oa << src; }
+                    B.reset(new zoo::RootT()); set_range(1, B.get()); zoo::vf_prepare(*B);
+                    if (op == "svt") { boost::archive::text_iarchive ia(ss); ia >> *B; }
+                    else { boost::archive::binary_iarchive ia(ss); ia >> *B; }
+                    std::map<int,int> add; for (auto& kv : E.parity) if (kv.first / 100000 == 0) add[kv.first + 100000] = kv.second;
+                    for (auto& kv : add) E.parity[kv.first] = kv.second;
+#endif
+                } else if (op == "dA") {
+                    A.reset(); set_range(0, nullptr);
+                    for (auto it = E.parity.begin(); it != E.parity.end();) { if (it->first / 100000 == 0) it = E.parity.erase(it); else ++it; }
+                } else if (op == "asA") {
+                    *A = static_cast<const zoo::RootT&>(*B);
+                    for (auto it = E.parity.begin(); it != E.parity.end();) { if (it->first / 100000 == 0) it = E.parity.erase(it); else ++it; }
+                    std::map<int,int> add; for (auto& kv : E.parity) if (kv.first / 100000 == 1) add[kv.first - 100000] = kv.second;
+                    for (auto& kv : add) E.parity[kv.first] = kv.second;
+                } else {
+                    zoo::RootT* tgt = onB ? B.get() : A.get();
+                    if (!tgt) throw Nondeterminism{"operation on a machine that does not exist"};
+                    g_root = tgt;
+                    ret = zoo::vf_apply(*tgt, op, st.ev);
+                }
+            } catch (Nondeterminism&) { throw; }
+            catch (std::exception& ex) { esc = true; what = ex.what(); }
+            catch (...) { esc = true; what = "non-std"; }
+            if (i + 1 == h.size()) {
+                std::string ch;
+                for (auto& c : E.choices) { ch += c.label + ":" + std::to_string(c.n) + ":" + std::to_string(c.chosen) + ":" + std::string(1, c.kind) + ";"; }
+                reply = (E.trace.empty() ? "-" : E.trace) + "\t" + std::to_string(ret) + "\t" + (A ? inst_canon(*A, 0) : std::string("gone")) + "\t"
+                      + (B ? inst_canon(*B, 1) : std::string("none")) + "\t" + (ch.empty() ? "-" : ch) + "\t" + (esc ? "ESC:" + what : "-") + "\t"
+                      + (E.ledger_error ? E.ledger_msg : "-") + "\t" + std::to_string(A ? zoo::vf_rootq(*A) : 0) + "\t" + std::to_string(B ? zoo::vf_rootq(*B) : 0)
+                      + "\t" + std::to_string(A ? pending_count(*A) : 0) + "\t" + (A ? zoo::vf_datasnap(*A) : std::string("-")) + "\t" + (B ? zoo::vf_datasnap(*B) : std::string("-"));
+            }
+        }
+        if (h.empty()) reply = "-\t-1\t" + inst_canon(*A, 0) + "\tnone\t-\t-\t-\t0\t0\t0\t" + zoo::vf_datasnap(*A) + "\t-";
+        g_root = nullptr;
+    }
+    bool leak = false; std::string lk;
+    for (auto& kv : E.live) if (kv.second != 0) { leak = true; lk += std::to_string(kv.first) + "=" + std::to_string(kv.second) + ","; }
+    reply += "\t" + (leak ? lk : std::string("-"));
+    E.copy_mode = false;
+    return reply;
+}
+
+inline History parse_history_line(const std::string& line) {
+    History h;
+    if (!line.empty() && line != "-") {
+        for (auto& st : split(line, '|')) {
+            auto f = split(st, ',');
+            Step s; s.op = f[0]; s.ev = atoi(f[1].c_str()); s.labels = true;
+            if (f.size() > 2 && !f[2].empty()) for (auto& kv : split(f[2], ';')) {
+                if (kv.empty()) continue;
+                auto p = kv.rfind('=');
+                s.lm[kv.substr(0, p)] = atoi(kv.substr(p + 1).c_str());
+            }
+            h.push_back(s);
+        }
+    }
+    return h;
+}
+
+inline int servecopy(const Options& o) {
+    std::string line;
+    while (std::getline(std::cin, line)) {
+        if (line == "QUIT") break;
+        try {
+            std::cout << run_copy_history(parse_history_line(line), o) << std::endl;
+        } catch (Nondeterminism& n) {
+            std::cout << "NONDETERMINISM " << n.what << std::endl;
+        }
+    }
+    return 0;
+}
+
 // lock-step service: one request per line on stdin
 //   step|step|...   with step = op,ev,label=alt;label=alt;...
 // one reply line: trace \t ret \t canon \t label:n:chosen;... \t esc \t ledger \t pending \t started \t rootq
@@ -339,6 +464,7 @@ int main(int argc, char** argv) {
         if (mode == "explore") return vfx::explore(o);
         if (mode == "replay") return vfx::replay(replay_path, o);
         if (mode == "serve") return vfx::serve(o);
+        if (mode == "servecopy") return vfx::servecopy(o);
         if (mode == "info") { std::cout << zoo::vf_machine_name << " cfg=" << VF_CFG << " events=" << zoo::vf_nevents << " menu=" << zoo::vf_nmenu << "\n"; return 0; }
     } catch (vf::Nondeterminism& n) {
         std::cerr << "NONDETERMINISM " << n.what << "\n";
